@@ -5,7 +5,7 @@ S=/dev/shm/pysmi-seed.$$
 rm -rf $S && rsync -a --exclude .git /repo/ $S/ || exit 3
 (cd $S && patch -p1 -s < "$patch") || { echo "PATCH DOES NOT APPLY"; rm -rf $S; exit 3; }
 for p in "$@"; do
-  VERIF_REPO=$S /verif/check $p 2>&1 | grep -E "^VIOLATION|^UNDECIDED|^CHECKER|^C[0-9]+ \[" 
+  VERIF_EVIDENCE_DIR=/dev/shm/seed-evidence VERIF_REPO=$S /verif/check $p 2>&1 | grep -E "^VIOLATION|^UNDECIDED|^CHECKER|^C[0-9]+ \[" 
   echo "  -> $p exit=$?"
 done
 rm -rf $S
